@@ -49,9 +49,21 @@ def scenarios(tier):
         # a value that looks like a node written over a recycled typed allocation while a traverser is in flight
         sc.append(("node_like_value_" + kind, c, SETUP_ONESEG,
                    [[AT(8, 8), {"k": "write", "h": T0, "at": 0, "vw": [-3, -1]}, VER(T0)], [DROP(2)]], {"live": False}))
+        # memory written by one thread, released, and handed to the other (the happens-before chain of C12)
+        sc.append(("recycle_across_" + kind, c, SETUP_ONESEG,
+                   [[AB(24), FILL(T0), DROP(T0)], [AB(16), FILL(T1), VER(T1)]], {"live": False}))
         # discard_freelist against an allocation from the list
         sc.append(("discard_vs_pop_" + kind, c, SETUP_TWOSEG,
                    [[{"k": "discard"}], [AB(8), FILL(T1), VER(T1)]], {"live": True}))
+    # teardown: every thread owns an arena value and drops it itself; the last one unmounts the memory
+    for kind in ["opt"]:
+        c = es.conc_cfg(cap=200, kind=kind, minseg=8, retries=2, own_clones=True)
+        DA = {"k": "drop_arena"}
+        sc.append(("teardown_" + kind, c, SETUP_ONESEG,
+                   [[AB(16), FILL(T0), VER(T0), DROP(T0), DA], [AB(8), FILL(T1), DROP(T1), DA]], {"live": False}))
+        sc.append(("clone_churn_" + kind, c, SETUP_FRESH,
+                   [[{"k": "clone"}, {"k": "drop_clone"}, DA], [{"k": "clone"}, AB(8), FILL(T1), DROP(T1), {"k": "drop_clone"}, DA]],
+                   {"live": True, "expect_live": True}))
     # fresh space: bump CAS contention and release of the topmost allocation
     for kind in ["opt", "none"]:
         c = es.conc_cfg(cap=200, kind=kind, minseg=8, retries=2)
@@ -172,6 +184,19 @@ def analyse_scenario(item):
             if sch is None:
                 raise ToolError("TLC liveness error without schedule on %s: %s" % (name, out[-2000:]))
             res["cex"].append({"kind": "liveness", "prop": "Termination", "schedule": sch})
+    # C12: happens-before bookkeeping over every interleaving (orderings of the micro-op table)
+    m, c = es.write_mcsync(wd, "MChb", cfg, txt, progs, hb=True)
+    rc, out = rv.run_tlc(wd, m, c, workers=4, deque=False, timeout=1500, heap="6g")
+    st3 = rv.tlc_stats(out)
+    if st3 is None:
+        raise ToolError("TLC (happens-before) failed on scenario %s: %s" % (name, out[-2000:]))
+    res["hb_rc"] = rc
+    res["hb_states"] = st3[1]
+    if rc != 0:
+        sch = es.parse_error_trace_schedule(out)
+        if es.violated_property(out) != "NoRace" or sch is None:
+            raise ToolError("TLC (happens-before) error on %s: %s" % (name, out[-2000:]))
+        res["cex"].append({"kind": "race", "prop": "NoRace", "schedule": sch})
     res["schedules"] = es.simulate_schedules(wd, "MCsim", cfg, txt, progs, 150 if tier == "quick" else 1500, seed)
     res["wall"] = round(time.time() - t0, 1)
     shutil.rmtree(wd, ignore_errors=True)
@@ -259,6 +284,11 @@ def run(prop, tier, seed):
     tv = time.time()
     pr = rv.validate_trace(trace, "TraceSyncProp.tla", "TraceSyncProp.cfg", "sync-%s-prop" % prop)
     lines = pr["lines"]
+    races = []
+    if prop == "C12":
+        hbres = rv.validate_trace(trace, "TraceHB.tla", "TraceHB.cfg", "sync-%s-hb" % prop)
+        pr["viol"] += hbres["viol"]
+        races = hbres["races"]
     # implementation-level conformance per scenario (model-derived and random schedules of the scenario programs)
     drift = []
     wd = os.path.join(rv.WORK, "val", "sync-%s-impl" % prop)
@@ -308,6 +338,9 @@ def run(prop, tier, seed):
         if p == "C07" and did in stuck_by_driver:
             sigs = dict(classify_stuck(stuck_by_driver[did]))
             v["sig"] = sigs.get(th_, "C07:%s" % pred)
+        elif p == "C12":
+            rs = sorted({"%s/%s" % (a, b) for (gl, a, b) in races if gl == gline})
+            v["sig"] = "C12:DataRace:%s" % (",".join(rs) or "?")
         else:
             v["sig"] = "%s:%s@%s" % (p, pred, (ev.get("op") or {}).get("k"))
         viol.append(v)
@@ -315,7 +348,9 @@ def run(prop, tier, seed):
     for a in analysed:
         for i, cx in enumerate(a["cex"]):
             did = "cex:%s:%s:%d" % (a["name"], cx["prop"], i)
-            want = "C07" if cx["kind"] == "liveness" else "C02"
+            want = {"liveness": "C07", "race": "C12"}.get(cx["kind"], "C13" if cx["prop"].startswith(("Freed", "NoAccessAfter")) else "C02")
+            if want == "C12" and prop != "C12":
+                continue  # the happens-before monitor only runs for C12
             if not [v for v in viol if v["driver"] == did and v["prop"] == want]:
                 raise ToolError("model counterexample %s (%s) does not reproduce on the real code" % (did, cx["prop"]))
         if a["flags"].get("expect_live") and a.get("liveness_rc"):
@@ -324,7 +359,7 @@ def run(prop, tier, seed):
     n_sim = sum(len(a["schedules"]) for a in analysed)
     stuck_n = len(stuck_by_driver)
     coverage = {
-        "states": sum(a["distinct"] for a in analysed) + sum(a.get("liveness_states", 0) for a in analysed),
+        "states": sum(a["distinct"] for a in analysed) + sum(a.get("liveness_states", 0) for a in analysed) + sum(a.get("hb_states", 0) for a in analysed),
         "transitions": sum(a["generated"] for a in analysed),
         "traces_validated_against_impl": sum(len(g) for (_, g) in impl_groups.values()),
         "samples": [{"scenario": analysed[0]["name"], "programs": analysed[0]["progs"], "schedule": (analysed[0]["schedules"] or [[]])[0][:40]}],
@@ -335,7 +370,7 @@ def run(prop, tier, seed):
                 "non-trivial = distinct (scenario, schedule) pairs forced on the real code" % len(analysed),
         "exhaustive": False,
         "scenarios": [{"name": a["name"], "distinct": a["distinct"], "depth": a["depth"], "safety_rc": a["safety_rc"],
-                       "liveness_rc": a.get("liveness_rc"), "schedules": len(a["schedules"]), "cex": [c["prop"] for c in a["cex"]]} for a in analysed],
+                       "liveness_rc": a.get("liveness_rc"), "hb_rc": a.get("hb_rc"), "hb_states": a.get("hb_states"), "schedules": len(a["schedules"]), "cex": [c["prop"] for c in a["cex"]]} for a in analysed],
         "model_counterexamples_replayed": sum(len(a["cex"]) for a in analysed),
         "executions_stuck": stuck_n,
         "events": len(lines),
